@@ -322,6 +322,25 @@ CHECKS.append({
     "design_ref": "DESIGN.md section 7, C18",
 })
 
+CHECKS.append({
+    "property_id": "C06",
+    "text": ("coq/Props/C06.v over the shared codec model coq/Model/Codec.v (deep embedding of every exported / constructed type: elementary, "
+             "strings, bit strings, fixed / length-prefixed / unbounded arrays, structs from dict or sequence, StructTag with offsets, bit members "
+             "and hidden hosts, FixedSizeString, identity / revision / IP objects, PCCC strings; elementary rows regenerated from /repo): "
+             "roundtrip — for every type term t, value v and trailing bytes rest with wf_ty t and in_dom t v (rest = [] for greedy types), encode "
+             "succeeds and decode (encoding ++ rest) = (norm t v, rest): the value comes back (REAL rounded to binary32 as Flocq's "
+             "binary_normalize does, over-long inputs to fixed arrays truncated), exactly the encoded bytes are consumed and following data is "
+             "untouched — by nested induction on type terms; struct_dict_positional for EVERY value; C06_full over the documented domain is "
+             "REFUTED by vm_compute witnesses replayed on the real code (14 known-finding classes: STRING2, empty STRINGN, length-prefixed "
+             "arrays, DATE_AND_TIME arity, arrays of n_bytes, bit-string arrays, zero-size types, PCCC_STRING, ListIdentityObject without "
+             "encoder, STRINGI items) and C06_guarded is proved under the exact computable guard. Tie: ~44k compared cases per quick run "
+             "(encode, decode with trailing data, every truncation, junk) through the extracted model and the real classes in a forked child; "
+             "oracle = the law itself on the implementation incl. stream.tell()."),
+    "note": COMMON_NOTE + " C06: roundtrip and C06_guarded are closed under the global context; C06_real_precision uses the four stdlib real-number/classical axioms Flocq brings. StructTag layouts with bit members overlaying a visible host are outside wf_ty (checked on the implementation only).",
+    "technique": "Coq proof (round-trip law by nested induction on a deep embedding of types; Flocq for REAL) + model/implementation correspondence and round-trip oracle",
+    "design_ref": "DESIGN.md section 7, C06",
+})
+
 _PENDING = "vertical still being completed (codec round-trip proofs in progress; model and correspondence exist: coq/Model/Codec.v, harness/codec_common.py); decided by Coq proof + correspondence when it lands"
 _CLAIMED = {c["property_id"] for c in CHECKS}
 NOT_APPLICABLE = [{"property_id": f"C{i:02d}", "reason": _PENDING} for i in range(1, 20) if f"C{i:02d}" not in _CLAIMED]
